@@ -39,6 +39,7 @@ type FuncContract struct {
 	Ensures  []*Clause
 	Modifies []string // raw lvalue expressions; nil = nothing; "everything"
 	HasMod   bool
+	Decreases *Clause // termination measure of a (directly) recursive function
 	Loops    map[int]*LoopSpec
 	Options  map[string]string
 	Lets     []struct{ Name string; E *Expr }
@@ -110,7 +111,7 @@ type Contracts struct {
 	Order  []string
 }
 
-var keywordRe = regexp.MustCompile(`^(func|assumed|iface|spec|lemma|axiom|property|requires|ensures|modifies|loop|panics|option|let|pure|trust|call|ghost)\b`)
+var keywordRe = regexp.MustCompile(`^(func|assumed|iface|spec|lemma|axiom|property|requires|ensures|modifies|loop|panics|option|let|pure|trust|call|ghost|decreases)\b`)
 
 func LoadContracts(files map[string][2]string) (*Contracts, error) {
 	cs := &Contracts{Funcs: map[string]*FuncContract{}, Specs: map[string]*SpecFn{}, Lemmas: map[string]*Lemma{}, Props: map[string][]string{}}
@@ -227,6 +228,12 @@ func (cs *Contracts) loadFile(file, pkgPath, pkgName string) error {
 		case "pure":
 			cur.Pure = true
 			cur.HasMod = true
+		case "decreases":
+			c, err := mk("decreases", rest)
+			if err != nil {
+				return err
+			}
+			cur.Decreases = c
 		case "ghost":
 			f := strings.Fields(rest)
 			if len(f) != 3 || f[1] != "counts" {
